@@ -115,6 +115,8 @@ def sample_by_parts(spec, pop, top, n_ids, rng, cov):
     """Draws of a composed population model taken sub-model by sub-model (each with
     its own slice of the parameters and its own covariate columns, continuing one
     generator) -- independent of the composed model's own bookkeeping."""
+    if spec['kind'] == 'Cov':
+        spec = rp.Comp([spec])
     if spec['kind'] != 'Comp' or any(p_['kind'] in ('Comp', 'Red')
                                      for p_ in spec['parts']):
         kw = {'covariates': cov} if cov is not None else {}
@@ -122,11 +124,22 @@ def sample_by_parts(spec, pop, top, n_ids, rng, cov):
     cols = []
     t0 = c0 = 0
     for part in spec['parts']:
-        sub = popbuild.build(part, n_ids)
         nt, ncv = rp.n_top(part, n_ids), rp.n_cov(part)
-        kw_p = {'covariates': cov[:, c0:c0 + ncv]} if ncv else {}
-        cols.append(np.asarray(sub.sample(top[t0:t0 + nt], n_samples=n_ids,
-                                          seed=rng, **kw_p)).reshape(n_ids, -1))
+        if part['kind'] == 'Cov' and part['inner']['kind'] != 'H':
+            # individual by individual: a draw of the UNDERLYING model at that
+            # individual's own shifted parameters
+            th = np.real(rp.vartheta(part, np.asarray(top[t0:t0 + nt]),
+                                     cov[:, c0:c0 + ncv], n_ids))
+            under = popbuild.build(part['inner'], 1)
+            cols.append(np.vstack([np.asarray(under.sample(
+                th[i_].flatten(), n_samples=1, seed=rng)).reshape(1, -1)
+                for i_ in range(n_ids)]))
+        else:
+            sub = popbuild.build(part, n_ids)
+            kw_p = {'covariates': cov[:, c0:c0 + ncv]} if ncv else {}
+            cols.append(np.asarray(sub.sample(
+                top[t0:t0 + nt], n_samples=n_ids, seed=rng, **kw_p)
+            ).reshape(n_ids, -1))
         t0 += nt
         c0 += ncv
     return np.hstack(cols)
@@ -303,10 +316,15 @@ def w_format(case):
         sc = chi.SamplingController(post, seed=1)
         sc.set_n_runs(n_runs)
         sc.set_parallel_evaluation(False)
-        ds = sc.run(n_iterations=n_draws)
         oc = chi.OptimisationController(post, seed=1)
         oc.set_n_runs(n_runs)
         oc.set_parallel_evaluation(False)
+        if case.get('transform'):
+            # a search-space transformation is pints' business: what pints hands
+            # back (chains, estimates) already is in model space
+            sc.set_transform(pints.LogTransformation(n))
+            oc.set_transform(pints.LogTransformation(n))
+        ds = sc.run(n_iterations=n_draws)
         table = oc.run(n_max_iterations=3)
     if case['kind'] == 'filter':
         # the published names / IDs are the documented layout: population level,
@@ -701,6 +719,12 @@ def build(tier, seed):
         hc = hier.make_case(spec, 11, seed,
                             ids=[str(k) for k in (3, 10, 1, 11, 2, 5, 4, 7, 6, 9, 8)])
         fmt.append({'kind': 'hier', 'hcase': hc, 'n_runs': 2, 'n_draws': 2})
+    for spec in fspecs[:2]:
+        hc = hier.make_case(spec, 2, seed, ids=['b', 'a'])
+        fmt.append({'kind': 'hier', 'hcase': hc, 'n_runs': 2, 'n_draws': 2,
+                    'transform': True})
+    fmt.append({'kind': 'individual', 'id': 'x7', 'n_runs': 2, 'n_draws': 2,
+                'transform': True})
     for n_runs in (1, 2, 3):
         for n_draws in (1, 2, 3):
             fmt.append({'kind': 'individual', 'id': 'x7', 'n_runs': n_runs,
@@ -797,3 +821,9 @@ META = {
     'level_note': 'The inference algorithms themselves (pints) are outside the '
                   'property; only chi\'s I/O around them is decided.',
 }
+META['level_text'] += (
+    ' Also: every history of <= 3 controller configuration calls / runs (starting p'
+    'oints handed to pints = seeded initial points), initial points of filter poste'
+    'riors over every composition of 2-3 dimensions with an independent per-sub-mod'
+    'el / per-individual sampling reference, more than nine individuals, two observ'
+    'ables, a search-space transformation.')
